@@ -58,10 +58,10 @@ def hull_case(draw):
     if cfg == "bounded":
         sysd = draw(matrix_system(m=(2, 4), shape=draw(st.sampled_from(["exact", "under"])), surplus=(1, 2), ub_kinds=("finite",)))
     elif cfg == "unbounded":
-        sysd = draw(matrix_system(m=(2, 4), n=(1, 5), ub_kinds=("inf",)))
+        sysd = draw(matrix_system(m=(2, 4), n=(1, 5), ub_kinds=("inf",), lb_kinds=("pos", "pos", "zero")))
     else:
         sysd = draw(matrix_system(m=(3, 4), shape="over", ub_kinds=("finite",)))
-    rows = draw(target_rows(sysd, ["interior", "interior", "near_in", "near_out", "outside", "vertex", "random"], nrows=(2, 6)))
+    rows = draw(target_rows(sysd, ["interior", "interior", "near_in", "near_out", "outside", "vertex", "random", "below_lb", "below_lb"], nrows=(2, 6)))
     s, c, asserted = draw(unit_factors(Sys(sysd)))
     return dict(system=sysd, rows=rows, s=s, c=c, asserted=asserted, cfg=cfg)
 
